@@ -111,7 +111,17 @@ fn observe(case: &Value) -> Vec<(String, Value)> {
                     let c3: TestResults<$K<i64>> = sv.iter().map(|v| $K(*v)).collect();
                     let by_val: $K<i64> = ts.results.iter().copied().sum();
                     let by_ref: $K<i64> = ts.results.iter().sum();
-                    let copies_ok = c1 == ts && c1.total_result.0 == total_of(&c1)
+                    // one value REFILLED again and again (a recycled buffer): long, short, long; empty in between
+                    let long: TestResults<$K<i64>> = (1..=9i64).chain(r.iter().copied()).collect();
+                    let mut c4 = long.clone();
+                    c4.clone_from(&ts);
+                    let step1 = c4 == ts && c4.total_result.0 == total_of(&c4) && c4.results.len() == ts.results.len();
+                    c4.clone_from(&long);
+                    let step2 = c4 == long && c4.total_result.0 == total_of(&c4) && c4.results.len() == long.results.len();
+                    c4.clone_from(&TestResults::<$K<i64>>::from(Vec::<i64>::new()));
+                    c4.clone_from(&tr);
+                    let step3 = c4 == tr && c4.total_result.0 == total_of(&c4) && c4.results.len() == tr.results.len();
+                    let copies_ok = step1 && step2 && step3 && c1 == ts && c1.total_result.0 == total_of(&c1)
                         && c2[0] == ts && c2[1] == tr && c2[0].total_result.0 == total_of(&c2[0]) && c2[1].total_result.0 == total_of(&c2[1])
                         && c3 == ts && ts.clone() == ts
                         && by_val.0 == total_of(&ts) && by_ref.0 == total_of(&ts);
@@ -209,6 +219,28 @@ pub fn replay(args: &[String]) -> i32 {
                              "on": "TestResults total of a long vector", "observed": ob}));
         }
     }
+    // "an individual compares as its result does" for results that are only PARTIALLY ordered (floats
+    // with NaN): every pair, an individual with ITSELF (the same object) and with a copy of itself
+    {
+        let vals = [f64::NAN, 0.0, -0.0, 1.5, f64::INFINITY, f64::NEG_INFINITY];
+        let inds: Vec<EcIndividual<u8, Score<f64>>> = vals.iter().enumerate().map(|(k, v)| EcIndividual::new(k as u8 % 2, Score(*v))).collect();
+        let copies = inds.clone();
+        for (a, ia) in inds.iter().enumerate() {
+            for (b, ib) in inds.iter().enumerate().chain(copies.iter().enumerate()) {
+                n += 1;
+                let want = Score(vals[a]).partial_cmp(&Score(vals[b]));
+                let ob = guarded(|| (ia.partial_cmp(ib), ia < ib, ia <= ib, ia > ib, ia >= ib));
+                let exp = (want, want == Some(Ordering::Less), matches!(want, Some(Ordering::Less | Ordering::Equal)),
+                           want == Some(Ordering::Greater), matches!(want, Some(Ordering::Greater | Ordering::Equal)));
+                if ob.as_ref().ok() != Some(&exp) {
+                    bad += 1;
+                    out.line(&json!({"kind": "mismatch", "case": {"case": {"t": "float_individuals", "kind": "score", "a": format!("{}", vals[a]), "b": format!("{}", vals[b]),
+                                     "same_object": std::ptr::eq(ia, ib)}, "exp": format!("{exp:?}")},
+                                     "on": "EcIndividual<Score<f64>> compared as its result", "observed": format!("{ob:?}")}));
+                }
+            }
+        }
+    }
     out.line(&json!({"kind": "summary", "cases": n, "mismatches": bad}));
     out.finish();
     0
@@ -224,14 +256,19 @@ impl Distribution<Vec<u8>> for Maker<'_> {
         g
     }
 }
+/// makes a genome from a population of individuals that were scored EARLIER, by something else (their
+/// results are stale): half of the time an exact copy of a member's genome, otherwise a varied one
 struct MakerOp<'a>(&'a RefCell<Vec<Vec<u8>>>);
+type ScoredPop = Vec<EcIndividual<Vec<u8>, i64>>;
 impl ec_core::operator::Composable for MakerOp<'_> {}
-impl<'p> Operator<&'p Vec<u8>> for MakerOp<'_> {
+impl<'p> Operator<&'p ScoredPop> for MakerOp<'_> {
     type Output = Vec<u8>;
     type Error = std::convert::Infallible;
-    fn apply<R: Rng + ?Sized>(&self, pop: &'p Vec<u8>, rng: &mut R) -> Result<Vec<u8>, Self::Error> {
-        let mut g = pop.clone();
-        g.push(rng.random_range(0..4));
+    fn apply<R: Rng + ?Sized>(&self, pop: &'p ScoredPop, rng: &mut R) -> Result<Vec<u8>, Self::Error> {
+        let mut g = pop[rng.random_range(0..pop.len())].genome.clone();
+        if rng.random() {
+            g.push(rng.random_range(0..4));
+        }
         self.0.borrow_mut().push(g.clone());
         Ok(g)
     }
@@ -259,7 +296,7 @@ pub fn construct_trace(args: &[String]) -> i32 {
             (ind.genome, ind.test_results)
         } else {
             let op = GenomeScorer::new(MakerOp(&made), scorer);
-            let pop: Vec<u8> = vec![1, 2];
+            let pop: ScoredPop = vec![EcIndividual::new(vec![1, 2], -7), EcIndividual::new(vec![3], -8), EcIndividual::new(vec![], -9)];
             let Ok(ind) = op.apply(&pop, &mut rng);
             (ind.genome, ind.test_results)
         };
